@@ -143,8 +143,8 @@ def run_case(case):
                           "rest": rest_ok, "form": (api.info.get("explicit", {}).get(m.name) or api.info.get("implicit", {}).get(m.name) or m.name)})
     script = {"root_pkg": apigen.lib_root(api.info, api.options), "calls": calls}
     ev, rc, err = pipeline.run_runner("checks.c06", script, lib, timeout=300)
-    if ev is None or "runner_crash" in ev:
-        return {"verdict": "inconclusive", "why": f"runner rc={rc} {err[-600:]} {str(ev)[:1500]}"}
+    if ev is None or "runner_crash" in ev or "library_import_error" in ev:
+        return pipeline.runner_failed_result(ev, rc, err, api)
     viol, counters, sigs = [], {}, set()
 
     def bump(k, n=1):
